@@ -229,14 +229,79 @@ def formfactor_ref(coef, s):
 # ---------------------------------------------------------------------------- names / structure factors
 
 
-def setting_names(sgdic):
-    """For each of the 237 settings the dictionary names that select it: {(no, cc): [names]}."""
+# Hermann-Mauguin short symbols of the 230 space groups in the order of International Tables A (1983-1995 naming: Cmca, Abm2 ...),
+# written out here with a blank between the symbol elements.  This table is the harness's own, independent of xfab.sg.sgdic:
+# it says which group a name denotes (the library's dictionary can only say which class it happens to map the name to).
+HM_TEXT = """
+P 1|P -1|P 2|P 21|C 2|P m|P c|C m|C c|P 2/m|P 21/m|C 2/m|P 2/c|P 21/c|C 2/c|
+P 2 2 2|P 2 2 21|P 21 21 2|P 21 21 21|C 2 2 21|C 2 2 2|F 2 2 2|I 2 2 2|I 21 21 21|P m m 2|P m c 21|P c c 2|P m a 2|P c a 21|P n c 2|
+P m n 21|P b a 2|P n a 21|P n n 2|C m m 2|C m c 21|C c c 2|A m m 2|A b m 2|A m a 2|A b a 2|F m m 2|F d d 2|I m m 2|I b a 2|I m a 2|
+P m m m|P n n n|P c c m|P b a n|P m m a|P n n a|P m n a|P c c a|P b a m|P c c n|P b c m|P n n m|P m m n|P b c n|P b c a|P n m a|
+C m c m|C m c a|C m m m|C c c m|C m m a|C c c a|F m m m|F d d d|I m m m|I b a m|I b c a|I m m a|
+P 4|P 41|P 42|P 43|I 4|I 41|P -4|I -4|P 4/m|P 42/m|P 4/n|P 42/n|I 4/m|I 41/a|P 4 2 2|P 4 21 2|P 41 2 2|P 41 21 2|P 42 2 2|P 42 21 2|
+P 43 2 2|P 43 21 2|I 4 2 2|I 41 2 2|P 4 m m|P 4 b m|P 42 c m|P 42 n m|P 4 c c|P 4 n c|P 42 m c|P 42 b c|I 4 m m|I 4 c m|I 41 m d|I 41 c d|
+P -4 2 m|P -4 2 c|P -4 21 m|P -4 21 c|P -4 m 2|P -4 c 2|P -4 b 2|P -4 n 2|I -4 m 2|I -4 c 2|I -4 2 m|I -4 2 d|
+P 4/m m m|P 4/m c c|P 4/n b m|P 4/n n c|P 4/m b m|P 4/m n c|P 4/n m m|P 4/n c c|P 42/m m c|P 42/m c m|P 42/n b c|P 42/n n m|
+P 42/m b c|P 42/m n m|P 42/n m c|P 42/n c m|I 4/m m m|I 4/m c m|I 41/a m d|I 41/a c d|
+P 3|P 31|P 32|R 3|P -3|R -3|P 3 1 2|P 3 2 1|P 31 1 2|P 31 2 1|P 32 1 2|P 32 2 1|R 3 2|P 3 m 1|P 3 1 m|P 3 c 1|P 3 1 c|R 3 m|R 3 c|
+P -3 1 m|P -3 1 c|P -3 m 1|P -3 c 1|R -3 m|R -3 c|
+P 6|P 61|P 65|P 62|P 64|P 63|P -6|P 6/m|P 63/m|P 6 2 2|P 61 2 2|P 65 2 2|P 62 2 2|P 64 2 2|P 63 2 2|P 6 m m|P 6 c c|P 63 c m|P 63 m c|
+P -6 m 2|P -6 c 2|P -6 2 m|P -6 2 c|P 6/m m m|P 6/m c c|P 63/m c m|P 63/m m c|
+P 2 3|F 2 3|I 2 3|P 21 3|I 21 3|P m -3|P n -3|F m -3|F d -3|I m -3|P a -3|I a -3|P 4 3 2|P 42 3 2|F 4 3 2|F 41 3 2|I 4 3 2|P 43 3 2|P 41 3 2|
+I 41 3 2|P -4 3 m|F -4 3 m|I -4 3 m|P -4 3 n|F -4 3 c|I -4 3 d|P m -3 m|P n -3 n|P m -3 n|P n -3 m|F m -3 m|F m -3 c|F d -3 m|F d -3 c|
+I m -3 m|I a -3 d
+"""
+HM = {i + 1: t.strip() for i, t in enumerate(HM_TEXT.replace("\n", "").split("|"))}
+assert len(HM) == 230 and HM[230] == "I a -3 d" and HM[62] == "P n m a" and HM[167] == "R -3 c" and HM[194] == "P 63/m m c", len(HM)
+RHOMB_NOS = (146, 148, 155, 160, 161, 166, 167)
+
+
+def hm_compact(no):
+    return "".join(HM[no].split()).lower()
+
+
+def hm_pdb(no):
+    """the symbol as a PDB CRYST1 record writes it: full monoclinic symbols with '1' place-holders (unique axis b), the rest as in HM"""
+    if 3 <= no <= 15:
+        lat, rest = HM[no].split()
+        return "%s 1 %s 1" % (lat, rest)
+    return HM[no]
+
+
+def setting_names(sgdic=None):
+    """For each of the 237 settings the names that denote it according to HM (independent of the library's dictionary):
+    {(no, cc): [names]}; R groups: plain name and name+'h' = hexagonal axes (standard), name+'r' = rhombohedral axes."""
     out = {}
-    for name, kl in sgdic.items():
-        no = int(kl[2:])
-        cc = "rhombohedral" if (name[0] == "r" and name[-1] == "r") else "standard"
-        out.setdefault((no, cc), []).append(name)
+    for no in range(1, 231):
+        c = hm_compact(no)
+        if no in RHOMB_NOS:
+            out[(no, "standard")] = [c, c + "h"]
+            out[(no, "rhombohedral")] = [c + "r"]
+        else:
+            out[(no, "standard")] = [c]
     return out
+
+
+def name_to_setting():
+    """{accepted compact name: (no, cc)} from HM"""
+    return {nm: k for k, v in setting_names().items() for nm in v}
+
+
+def group_forms(no, cc):
+    """Every way a caller can ask for the setting (no, cc) through the (sgno, sgname, cell_choice) triple the library's functions
+    take: a list of (label, keyword dict).  Strings are built at run time (no source literal can be 'is'-compared)."""
+    c = hm_compact(no)
+    sp = HM[no]
+    ccs = "".join(list(cc))
+    if cc == "rhombohedral":
+        return [("no+cc", {"sgno": no, "cell_choice": ccs}), ("name-r", {"sgname": c + "r"}), ("plain-name+cc", {"sgname": c, "cell_choice": ccs}),
+                ("spaced-name-R", {"sgname": sp + " R"}), ("spaced-plain-name+cc", {"sgname": " " + sp.lower(), "cell_choice": ccs}),
+                ("name-r+cc", {"sgname": c.upper() + "R", "cell_choice": ccs}), ("name-r+standard", {"sgname": c + "r", "cell_choice": "stand" + "ard"})]
+    f = [("no", {"sgno": no}), ("no+standard", {"sgno": no, "cell_choice": ccs}), ("name", {"sgname": c}), ("spaced-name", {"sgname": sp}),
+         ("name+standard", {"sgname": c.title(), "cell_choice": ccs})]
+    if no in RHOMB_NOS:
+        f += [("name-h", {"sgname": c + "h"}), ("spaced-name-H", {"sgname": sp + " H"}), ("name-h+standard", {"sgname": c + "h", "cell_choice": ccs})]
+    return f
 
 
 def dyadic(ops):
